@@ -34,6 +34,24 @@ Theorem C18_save_complete : forall s data, save true s data CNone = mkFs (Some d
 Proof. exact save_complete. Qed.
 Print Assumptions C18_save_complete.
 
+(* Saving and reloading: whatever a session did to the loaded state — look-ups (which stamp
+   UsedAt) only, included — the state the storage holds when it stops is the state the next
+   start loads (the JSON codec's own round trip is the hypothesis; it is validated by the
+   harness on generated states). *)
+Theorem C18_session_roundtrip : forall (M : Type) (ser : M -> list N) (de : list N -> option M),
+  (forall m, de (ser m) = Some m) -> forall s m0 ops,
+  exists d, f_state (session M ser s m0 ops) = Some d /\ de d = Some (fold_left (sapply M) ops m0).
+Proof. exact session_roundtrip. Qed.
+Print Assumptions C18_session_roundtrip.
+
+(* a storage that skips the save when no write operation happened violates it *)
+Theorem C18_session_skip_refuted : exists (ser : N -> list N) (de : list N -> option N),
+  (forall m, de (ser m) = Some m) /\
+  exists s m0 ops, (match f_state (session_skip_unmodified N ser s m0 ops) with
+                    | Some d => de d | None => None end) <> Some (fold_left (sapply N) ops m0).
+Proof. exact session_skip_refuted. Qed.
+Print Assumptions C18_session_skip_refuted.
+
 (* non-vacuity: a crashed long save followed by a completed short one *)
 Example C18_nonvacuous :
   run true (mkFs (Some [9]) None) [([1;2;3;4;5], CWrite 3); ([7;8], CNone)] = mkFs (Some [7;8]) None /\
